@@ -132,14 +132,23 @@ var stakeSets = [][]int64{
 // transactions and blocks
 
 func (h *hist) queue(signer *chain.Account, what string, msg sdk.Msg, done func(chain.TxResult)) {
+	h.queueMsgs(signer, what, []sdk.Msg{msg}, done)
+}
+
+// queueMsgs: ONE transaction of signer carrying msgs (atomic: all of them take effect or none).
+func (h *hist) queueMsgs(signer *chain.Account, what string, msgs []sdk.Msg, done func(chain.TxResult)) {
 	off := uint64(0)
 	for _, p := range h.pend {
 		if p.signer == signer {
 			off++
 		}
 	}
-	h.rec.Op(map[string]any{"op": "tx", "height": h.c.Height + 1, "signer": signer.Name, "what": what, "msg": msg})
-	if err := h.c.QueueTx(signer, off, msg); err != nil {
+	if len(msgs) == 1 {
+		h.rec.Op(map[string]any{"op": "tx", "height": h.c.Height + 1, "signer": signer.Name, "what": what, "msg": msgs[0]})
+	} else {
+		h.rec.Op(map[string]any{"op": "tx", "height": h.c.Height + 1, "signer": signer.Name, "what": what, "msgs": msgs})
+	}
+	if err := h.c.QueueTx(signer, off, msgs...); err != nil {
 		h.note("cannot build tx %s: %v", what, err)
 		return
 	}
@@ -545,20 +554,37 @@ func (h *hist) signOn(q string, ms []consensustypes.QueuedSignedMessageI, forceV
 }
 
 func (h *hist) queueSign(v *chain.Account, q string, m *consensustypes.MsgAddMessagesSignatures, mode string) {
+	h.queueSignTx(v, []*consensustypes.MsgAddMessagesSignatures{m}, mode, nil)
+}
+
+// queueSignTx: one transaction of v with the given signature messages. The monitor's log is fed per
+// signature with the queue THAT signature names (a message may span queues of several chains).
+func (h *hist) queueSignTx(v *chain.Account, ms []*consensustypes.MsgAddMessagesSignatures, mode string, after func(chain.TxResult)) {
 	h.rec.Count("cq/sign_attempts/"+mode, 1)
-	h.queue(v, "sign/"+mode, m, func(r chain.TxResult) {
+	var msgs []sdk.Msg
+	for _, m := range ms {
+		msgs = append(msgs, m)
+	}
+	h.queueMsgs(v, "sign/"+mode, msgs, func(r chain.TxResult) {
 		height := h.c.Height + 1
 		if r.OK() {
 			h.rec.Count("cq/sign_accepted/"+mode, 1)
-			for _, s := range m.SignedMessages {
-				h.mon.onSigned(v, q, s.Id, s.SignedByAddress, mode, height)
+			for _, m := range ms {
+				for _, s := range m.SignedMessages {
+					h.mon.onSigned(v, s.QueueTypeName, s.Id, s.SignedByAddress, mode, height)
+				}
 			}
 		} else {
 			rs := reason(r.Log)
 			h.rec.Count("cq/sign_rejected/"+mode+"/"+rs, 1)
-			for _, s := range m.SignedMessages {
-				h.mon.onSignRejected(q, s.Id, mode, rs)
+			for _, m := range ms {
+				for _, s := range m.SignedMessages {
+					h.mon.onSignRejected(s.QueueTypeName, s.Id, mode, rs)
+				}
 			}
+		}
+		if after != nil {
+			after(r)
 		}
 	})
 }
